@@ -248,6 +248,11 @@ func readAll(st types.KVStore, universe [][]byte) (pairs [][2][]byte, bad string
 			bad = fmt.Sprintf("panic while reading: %v", r)
 		}
 	}()
+	// Point reads first: the IAVL iterators walk the tree in goroutines of their own, where a
+	// panic of the real code (e.g. a node missing from the database) could not be recovered.
+	// Every node of the tree lies on the path to some key of the universe, so a damaged tree
+	// panics here, in this goroutine, and is reported as a disagreement.
+	touch(st, universe)
 	it, _ := st.Iterator(nil, nil)
 	for ; it.Valid(); it.Next() {
 		pairs = append(pairs, [2][]byte{append([]byte{}, it.Key()...), append([]byte{}, it.Value()...)})
@@ -292,6 +297,13 @@ func readAll(st types.KVStore, universe [][]byte) (pairs [][2][]byte, bad string
 		}
 	}
 	return pairs, ""
+}
+
+// touch reads every key of the universe by point lookup (see readAll).
+func touch(st types.KVStore, universe [][]byte) {
+	for _, k := range universe {
+		_, _ = st.Get(k)
+	}
 }
 
 // diskInfo decodes the commit-info record of a version and the latest-version record
